@@ -469,11 +469,20 @@ def render(doc):
                      "              <In>0</In>\n            </Source>\n")
         o.append("            <Record>\n              <In>%d</In>\n              <Duration>%d</Duration>\n            </Record>\n"
                  % (s["start"], s["duration"]))
-        o.append(_levels_xml("            ", s["levels"], v29, sep))
+        own = _levels_xml("            ", s["levels"], v29, sep)
+        fr = []
         for f in s["frames"]:
-            o.append("            <Frame>\n              <EditOffset>%d</EditOffset>\n" % f["offset"])
-            o.append(_levels_xml("              ", f["levels"], v29, sep))
-            o.append("            </Frame>\n")
+            fr.append("            <Frame>\n              <EditOffset>%d</EditOffset>\n" % f["offset"])
+            fr.append(_levels_xml("              ", f["levels"], v29, sep))
+            fr.append("            </Frame>\n")
+        # child order is free in the document: one shot in three writes its Frame nodes before its own PluginNode
+        # (decided from the shot's data, so that a document renders the same way every time)
+        if s["frames"] and (s["start"] + s["duration"] + len(s["frames"])) % 3 == 0:
+            o.extend(fr)
+            o.append(own)
+        else:
+            o.append(own)
+            o.extend(fr)
         o.append("          </Shot>\n")
     o.append("        </Track>\n      </Video>\n    </Output>\n  </Outputs>\n</DolbyLabsMDF>\n")
     return "".join(o)
